@@ -1929,6 +1929,9 @@ fn find_load_untrusted() {
     add("temporary id without a number", ann("!A", &ok_target(), d1));
     add("temporary id with a sign", ann("!A-1", &ok_target(), d1));
     add("temporary id that overflows", ann("!A18446744073709551616", &ok_target(), d1));
+    add("temporary id with the largest number", ann("!A18446744073709551615", &ok_target(), d1));
+    add("temporary id with the largest number after an ordinary annotation", format!("{}, {}", ann("A1", &ok_target(), d1), ann("!A18446744073709551615", &ok_target(), d1)));
+    add("temporary id beyond any allocation", ann("!A9223372036854775807", &ok_target(), d1));
     add("non-ASCII temporary id", ann("!É1", &ok_target(), d1));
     add("reference by temporary id to a gap", format!("{}, {}", ann("!A2", &ok_target(), d1), ann("X", r#"{"@type": "AnnotationSelector", "annotation": "!A0"}"#, d1)));
     // datasets whose data list carries temporary ids (the visitor sizes and fills the data vector from them), also in a duplicated field
@@ -1941,6 +1944,7 @@ fn find_load_untrusted() {
     docs.push(("data with a temporary id leaving a gap".to_string(), dsdoc(&format!(r#""data": [{}, {}]"#, item("D1", "v"), item("!D4", "c")))));
     docs.push(("data with a temporary id below the current length".to_string(), dsdoc(&format!(r#""data": [{}, {}, {}]"#, item("D1", "v"), item("D2", "w"), item("!D0", "c")))));
     docs.push(("data field twice, second list with a temporary id below the current length".to_string(), dsdoc(&format!(r#""data": [{}, {}], "data": [{}]"#, item("D1", "v"), item("D2", "w"), item("!D0", "c")))));
+    docs.push(("data with a temporary id with the largest number".to_string(), dsdoc(&format!(r#""data": [{}, {}]"#, item("D1", "v"), item("!D18446744073709551615", "c")))));
     docs.push(("data with the same temporary id twice".to_string(), dsdoc(&format!(r#""data": [{}, {}, {}]"#, item("D1", "v"), item("!D1", "w"), item("!D1", "c")))));
     for (name, json) in &docs {
         let r = std::panic::catch_unwind(|| {
